@@ -838,7 +838,7 @@ func (e *c13env) drvStream(rng *Rng, nHist int) {
 				case *driver.MemCopyH2DCommand:
 					switch src := v.Src.(type) {
 					case []byte:
-						cStr = append(cStr, fmt.Sprintf("code:%d:%d:%d", uint64(v.Dst), c.id, len(src)))
+						cStr = append(cStr, fmt.Sprintf("code:%d:%d:%d", uint64(v.Dst), c13ckey(q.pid, c.id), len(src)))
 						uploads[uint64(v.Dst)] = src
 					case *kernels.HsaKernelDispatchPacket:
 						cStr = append(cStr, fmt.Sprintf("pkt:%d", uint64(v.Dst)))
@@ -846,7 +846,7 @@ func (e *c13env) drvStream(rng *Rng, nHist int) {
 						cStr = append(cStr, fmt.Sprintf("args:%d", uint64(v.Dst)))
 					}
 				case *driver.LaunchKernelCommand:
-					cStr = append(cStr, fmt.Sprintf("launch:%d:%d:%d:%d", c.id, v.Packet.KernelObject, v.Packet.KernargAddress, uint64(v.DPacket)))
+					cStr = append(cStr, fmt.Sprintf("launch:%d:%d:%d:%d", c13ckey(q.pid, c.id), v.Packet.KernelObject, v.Packet.KernargAddress, uint64(v.DPacket)))
 					l := lrec{q: qi, co: c, ko: v.Packet.KernelObject, pid: q.pid}
 					_, l.sameQ = uploads[l.ko]
 					launches = append(launches, l)
@@ -868,7 +868,7 @@ func (e *c13env) drvStream(rng *Rng, nHist int) {
 							r.Failf("C13.drv.code-bytes", strings.Join(parts, " ; "), "unified launch part %d: no upload of co.Data to KernelObject %d in this call", i, pk.KernelObject)
 						}
 					}
-					cStr = append(cStr, fmt.Sprintf("ulaunch:%d:%s", c.id, strings.Join(ps, ",")))
+					cStr = append(cStr, fmt.Sprintf("ulaunch:%d:%s", c13ckey(q.pid, c.id), strings.Join(ps, ",")))
 				default:
 					cStr = append(cStr, fmt.Sprintf("other:%T", cm))
 				}
@@ -922,6 +922,10 @@ func (e *c13env) drvStream(rng *Rng, nHist int) {
 		}
 	}
 }
+
+// c13ckey: the tag the model gives the commands of the repaired driver (C13.Drv.ckey): the cache key
+// codeObjKey{pid, co} as one number, (pid + id)^2 + pid
+func c13ckey(pid, id int) int { return (pid+id)*(pid+id) + pid }
 
 // drvReplay: the cross-process placement on whole platforms (the second process executes whatever
 // its own address space holds at the first process's address).
